@@ -256,6 +256,10 @@ class SimStore(object):
         self.fragpos = 0
         self.nopen = 0
         self.handles = []
+        # fault plan for writers: once this many more bytes have been
+        # accepted, write() stores what still fits (a torn write) and raises
+        # ENOSPC; None = no fault
+        self.write_budget = None
 
     def charge(self, what, n=1):
         k = (CTX.task, what)
@@ -415,6 +419,15 @@ class SimFile(io.BufferedIOBase):
         if not self.writable():
             raise io.UnsupportedOperation('not writable')
         b = bytes(b)
+        budget = self.store.write_budget
+        if budget is not None:
+            if len(b) > budget:
+                self._buf += b[:budget]
+                self.store.charge('bytes_written', budget)
+                self.store.write_budget = 0
+                CTX.fire('sink-write-error')
+                raise SimDiskFull()
+            self.store.write_budget = budget - len(b)
         self._buf += b
         self.store.charge('bytes_written', len(b))
         return len(b)
